@@ -294,7 +294,12 @@ class CallMixin:
             if 'result' not in env:
                 s.frames[callee_fid]['result'] = res
             for p in posts:
-                z = self.ev_spec(p, s)
+                try:
+                    z = self.ev_spec(p, s)
+                except ContractError as e:
+                    if 'is not declared' in str(e):
+                        continue      # about ghost state this caller does not track: not assumed (assuming less is sound)
+                    raise
                 s.assume(z, qf=not self.has_quant(z))
             if saved_old is not None:
                 s.snaps['old'] = saved_old
